@@ -307,6 +307,9 @@ func (m *Machine) Next(choice int) Outcome {
 			if err != nil {
 				return m.fail(err, s)
 			}
+			if s.MarkupFault {
+				return m.fail(fault("malformed markup in line text"), s)
+			}
 			return Outcome{Kind: OLine, Node: m.Cur, Text: t, Plain: len(nums) == 0, Nums: nums, Tags: s.Tags, Stmt: s}
 		case hast.SOptions:
 			out := Outcome{Kind: OOptions, Node: m.Cur, Stmt: s}
